@@ -111,6 +111,11 @@ def run_case(seed, tier, rec, st):
             config.append("        discriminator = Discriminator(field='kind', include_subtypes=True)")
         if rng.random() < 0.15:
             config.append("        lazy_compilation = True")
+        # a key-rewriting __pre_deserialize__ hook: the key rules (incl. forbid_extra_keys) apply to what the hook returns
+        hook = bool(mixin_src) and not discr and rng.random() < 0.2
+        hook_lines = ["    @classmethod", "    def __pre_deserialize__(cls, d):", "        d = dict(d)", "        d.pop('legacy', None)",
+                      "        if 'hooked' in d:", "            d['stranger2'] = d.pop('hooked')", "        return d"] if hook else []
+        plain_cfg_chain = False
         if undecorated_root:
             # (G) the Config (discriminator, forbid_extra_keys ...) lives on a base that is NOT a dataclass
             lines = ["class RootCfg(DataClassDictMixin):"] + config + ["@dataclass", "class M(RootCfg):"] + (declared or ["    pass"])
@@ -120,10 +125,19 @@ def run_case(seed, tier, rec, st):
             import re as _re
             stale = [_re.sub(r"Alias\('([^']*)'\)", lambda m: "Alias('STALE_" + m.group(1) + "')",
                              _re.sub(r"alias='([^']*)'", lambda m: "alias='STALE_" + m.group(1) + "'", ln)) for ln in declared]
-            lines = (["@dataclass", ("class Base(" + mixin_src + "):").replace("()", "")] + stale + ["@dataclass", "class Mid(Base):"] + declared
-                     + ["@dataclass", "class M(Mid):"] + config)
+            base_cfg = []
+            if rng.random() < 0.5:
+                # PLAIN Config classes (not derived from BaseConfig) inheriting from each other: the derived one decides
+                plain_cfg_chain = True
+                base_cfg = ["    class Config:", f"        allow_deserialization_not_by_alias = {not allow}", f"        forbid_extra_keys = {not forbid}",
+                            f"        aliases = {dict((f['name'], 'STALEC_' + f['name']) for f in fields)!r}"]
+                config = ["    class Config(Base.Config):"] + config[1:]
+                if not cfg_aliases:
+                    config.append("        aliases = {}")
+            lines = (["@dataclass", ("class Base(" + mixin_src + "):").replace("()", "")] + stale + base_cfg + ["@dataclass", "class Mid(Base):"] + declared
+                     + ["@dataclass", "class M(Mid):"] + config + hook_lines)
         else:
-            lines = lines[:field_lines_at] + declared + config
+            lines = lines[:field_lines_at] + declared + config + hook_lines
         if discr:
             # the tagged subclass is what gets deserialized; it inherits the Config (and so the
             # class-level discriminator field, which forbid_extra_keys must accept)
@@ -164,16 +178,19 @@ def run_case(seed, tier, rec, st):
             for k in (f["name"], f["meta"], f["ann"], f["cfg"]):
                 if k is not None and k not in cand:
                     cand.append(k)
-        for k in (("ni",) if noinit else ()) + ("None", "stranger") + (("kind",) if discr else ()):
+        nonstr = rng.random() < 0.5
+        for k in (("ni",) if noinit else ()) + ("None", "stranger") + (("kind",) if discr else ()) + ((7,) if nonstr else ()) + (("legacy", "hooked") if hook else ()):
             if k not in cand:
                 cand.append(k)
-        cand = cand[:10]
-        cfg_sig = (tuple((f["tk"], f["default"], f["meta"], f["ann"], f["cfg"]) for f in fields), allow, forbid, discr, noinit, undecorated_root, stale_bases)
+        cand = cand[:11]
+        cfg_sig = (hook, plain_cfg_chain, nonstr) + (tuple((f["tk"], f["default"], f["meta"], f["ann"], f["cfg"]) for f in fields), allow, forbid, discr, noinit, undecorated_root, stale_bases)
         sampled = False
         # each candidate key carries a value valid for every field type that may read it
         for mask in itertools.product([False, True], repeat=len(cand)):
             rec.evaluation()
-            present = [k for p, k in zip(mask, cand) if p]
+            present0 = [k for p, k in zip(mask, cand) if p]
+            # what the hook hands on: 'legacy' dropped, 'hooked' renamed to a stranger
+            present = [("stranger2" if k == "hooked" else k) for k in present0 if not (hook and k == "legacy")] if hook else present0
             # value per key: must be decodable by whichever field reads it -> per-field wire chosen by reader
             # find readers first
             reader = {}
@@ -184,7 +201,10 @@ def run_case(seed, tier, rec, st):
                         break
             d = {}
             nulls = set()
-            for j, k in enumerate(present):
+            for j, k in enumerate(present0):
+                if hook and k in ("legacy", "hooked"):
+                    d[k] = f"unread-{j}"
+                    continue
                 f = reader.get(k)
                 d[k] = TYPES[f["tk"]][1](j) if f else f"unread-{j}"
                 # an explicit null is a present key like any other (only where every possible reader is nullable)
@@ -211,7 +231,7 @@ def run_case(seed, tier, rec, st):
                 if exp is None:
                     exp = ("ok", res)
             det = lambda **kw: dict({"source": src, "input": common.short(d, 300)}, **kw)
-            facts = {"allow": allow, "forbid": forbid, "discriminator": discr, "none_key_present": "None" in present, "init_false_member": noinit, "config_on_undecorated_root": undecorated_root, "fields_redeclared_in_middle_class": stale_bases}
+            facts = {"allow": allow, "forbid": forbid, "discriminator": discr, "none_key_present": "None" in present, "init_false_member": noinit, "pre_deserialize_hook": hook, "plain_config_chain": plain_cfg_chain, "non_string_key": 7 in present0, "config_on_undecorated_root": undecorated_root, "fields_redeclared_in_middle_class": stale_bases}
             try:
                 r = dec(dict(d))
                 got = ("ok", {f["name"]: getattr(r, f["name"]) for f in fields})
